@@ -62,6 +62,17 @@ theorem split_chunk_free (chunks₁ chunks₂ ws perm mods : List Nat) (den : Na
   · subst hm; rfl
   · rw [splitPositions_eq _ _ _ _ _ hm hp h₁, splitPositions_eq _ _ _ _ _ hm hp h₂]
 
+/-- The code before the K4 fix (`guarded := false`) computed the same positions on every
+slab whose total weight exceeds all thresholds (a slab of positive weight under a scheme
+modifier list); it aborted only on the remaining slabs – empty or zero-weight ones, see
+`mj_empty_slab_counterexample`. -/
+theorem split_unguarded_eq (chunks ws perm mods : List Nat) (den : Nat)
+    (hp : ∀ i ∈ perm, i < ws.length) (hc : chunks.sum = perm.length)
+    (hex : ∀ A ∈ cumul mods.dropLast 0, (slabW ws perm).sum * A < (slabW ws perm).sum * den) :
+    splitPositions { guarded := false } chunks ws perm mods den =
+      splitPositions {} chunks ws perm mods den :=
+  splitPositions_unguarded_eq chunks ws perm mods den hp hc hex
+
 /-- The positions are non-decreasing, at most the slab's length, one per modifier but the last. -/
 theorem split_positions_monotone_le_len (chunks ws perm mods : List Nat) (den : Nat)
     (hp : ∀ i ∈ perm, i < ws.length) (hc : chunks.sum = perm.length) (pos : List Nat)
@@ -205,6 +216,13 @@ example : RootOk (fun n _ => n) :=
   ⟨fun _ _ h => h, fun _ _ _ _ => Nat.le_refl _, fun _ _ h _ => h, fun _ _ => rfl, rfl⟩
 example : (∀ w ∈ [10, 1, 1, 1], 0 < w) ∧ (∀ w ∈ [10, 1, 1, 1], w ≤ 10) ∧ 10 ∈ [10, 1, 1, 1] := by
   decide
+example : (scheme iroot 5 2).map (fun s => (s.leaves, s.depth)) = some (5, 2) := by decide
+example : (run {} iroot isort (fun n => [n]) 2 k4key [1, 1, 1, 1, 1, 1] 6 3 2).map Hier.leaves
+    = some [[3, 2], [1, 0], [4, 5]] := by decide
+example : splitMany [7, 8, 9, 10] [1, 1, 3] = some [[7], [], [8, 9], [10]] := by decide
+example : ∀ A ∈ cumul [1, 1, 1].dropLast 0,
+    (slabW [1, 1, 1, 1, 1, 1] [0, 1, 2, 3, 4, 5]).sum * A < (slabW [1, 1, 1, 1, 1, 1] [0, 1, 2, 3, 4, 5]).sum * 3 := by
+  decide
 example : splitPositions {} [2, 2, 2] [1, 1, 1, 1, 1, 1] [0, 1, 2, 3, 4, 5] [1, 1, 1] 3 = some [2, 4] := by
   decide
 
@@ -215,6 +233,7 @@ end Coupe.MultiJagged
 #print axioms Coupe.MultiJagged.split_index_spec
 #print axioms Coupe.MultiJagged.split_index_least
 #print axioms Coupe.MultiJagged.split_chunk_free
+#print axioms Coupe.MultiJagged.split_unguarded_eq
 #print axioms Coupe.MultiJagged.split_positions_monotone_le_len
 #print axioms Coupe.MultiJagged.split_many_total
 #print axioms Coupe.MultiJagged.run_spec
